@@ -289,4 +289,5 @@ def run(ctx):
         "R10.checked-entry-points-check": "the checked insertion of the thread-safe pools is what makes a wrong-layout insert a panic instead of two live objects sharing memory",
         "R11.twin-agreement": "same: the checked entry point must differ from its unchecked twin by the verification only",
         "R4.handle-provenance": "a handle whose slab/slot coordinates are not those of its object makes the last drop destroy a different, still referenced object",
+        "R12.prefault-only-on-fresh-memory": "reserve() of the thread-safe pools creates slabs through the same constructor: storage wiped after construction is invalid for every later insert",
     })
